@@ -36,6 +36,7 @@ fn build_antnode() -> Result<PathBuf, String> {
     Ok(PathBuf::from("/verif/harness/target/debug/antnode"))
 }
 
+#[derive(Clone)]
 struct Run {
     ok: bool,
     class: String,
@@ -90,6 +91,54 @@ fn run(bin: &Path, args: &[String], cwd: &Path) -> Run {
     }
 }
 
+/// What systemd starts for the definition, going by the unit file the shipped systemd backend writes for it:
+/// `exp` (the ExecStart value contains a specifier / variable / escape / unbalanced quote / lone `;`: not interpreted),
+/// `prog` (the first word is not the installed program: systemd is told to execute something else), or the REAL antnode
+/// binary's verdict on the re-tokenised argument words.
+fn unit_run(bin: &Path, ctx: &service_manager::ServiceInstallCtx, cwd: &Path, scratch: &Path, direct: &Run) -> (String, Option<Run>) {
+    let unit = match render_systemd_unit(ctx, scratch) {
+        Ok(u) => u,
+        Err(e) => return (format!("render-error:{}", e.replace(' ', "_")), None),
+    };
+    let value = unit_exec_line(&unit).and_then(|l| l.strip_prefix("ExecStart=")).unwrap_or("");
+    match systemd_split(value) {
+        None => ("exp".into(), None),
+        Some(ws) if ws.is_empty() => ("exp".into(), None),
+        Some(ws) => {
+            if ws[0] != ctx.program.to_string_lossy() {
+                return ("prog".into(), None);
+            }
+            // the same word list as the direct run gets the same verdict: no second process
+            let r = if ws[1..] == argv(ctx)[..] { direct.clone() } else { run(bin, &ws[1..], cwd) };
+            (r.class.clone(), Some(r))
+        }
+    }
+}
+
+/// (family, what is made unsafe): one user string that the unquoted unit file does not carry faithfully
+const UNIT_PROBES: &[(&str, &str)] = &[
+    ("log-dir-blank", "my logs"),
+    ("data-dir-blank", "my disk"),
+    ("owner-flag-injection", "bob --home-network"),
+    ("owner-quoted", "\"a b\""),
+    ("owner-percent", "100%h"),
+    ("owner-dollar", "$HOME"),
+    ("owner-backslash", "a\\b"),
+    ("owner-semicolon", ";"),
+    ("owner-empty", ""),
+    ("url-blank", "http://host/path with space/x.json"),
+];
+
+fn dump_home(dump: &str) -> &'static str {
+    if dump.contains("home_network:true,") {
+        "T"
+    } else if dump.contains("home_network:false,") {
+        "F"
+    } else {
+        "?"
+    }
+}
+
 /// what the parsed `Opt` must contain for this record (compact `{:#?}` fragments)
 fn intended(rec: &Rec, root: &Path, port_override: Option<String>) -> Vec<String> {
     let r = root.to_string_lossy().to_string();
@@ -139,7 +188,8 @@ fn intended(rec: &Rec, root: &Path, port_override: Option<String>) -> Vec<String
         b("options.peers_args.local"),
         b("options.peers_args.disable_mainnet_contacts"),
         b("options.peers_args.ignore_cache"),
-        match rec.some("options.peers_args.bootstrap_cache_dir") {
+        // a directory given on antctl's own command line (`@cli_cache`) is what the user asked for; else the default
+        match rec.some("@cli_cache").or_else(|| rec.some("options.peers_args.bootstrap_cache_dir")) {
             Some(d) => format!("Some({:?},),", sub(d)),
             None => "None,".into(),
         }
@@ -215,6 +265,10 @@ fn typed_value_violation(args: &[String]) -> Option<String> {
         if DIGIT_FLAGS.contains(&w[0].as_str()) && !w[1].chars().next().map(|c| c.is_ascii_digit()).unwrap_or(false) {
             return Some(format!("{} {}", w[0], w[1]));
         }
+        // … and without white space, quotes, backslash, `%`, `$` (Lean: `TypedValuesPlain`)
+        if DIGIT_FLAGS.contains(&w[0].as_str()) && !word_safe(&w[1]) {
+            return Some(format!("{} {}", w[0], w[1]));
+        }
         if w[0] == "--log-format" && w[1] != "json" && w[1] != "default" {
             return Some(format!("{} {}", w[0], w[1]));
         }
@@ -288,16 +342,20 @@ fn main() {
             return;
         }
     };
-    let home = args.out.join("home");
-    std::fs::create_dir_all(&home).expect("home");
-    std::env::set_var("HOME", &home);
-    std::env::set_var("USER", "root");
     let root: PathBuf = args.out.join("fs");
+    std::env::set_var("HOME", root.join("home"));
+    std::env::remove_var("XDG_DATA_HOME");
+    std::env::set_var("USER", "root");
+    let scratch: PathBuf = args.out.join("scratch");
+    if root.to_string_lossy().chars().any(|c| !(c.is_ascii_alphanumeric() || "/-_.".contains(c))) {
+        eprintln!("harness infrastructure failure: the scratch root {root:?} must consist of plain characters");
+        std::process::exit(3);
+    }
     let rule = upgrade_autostart_rule();
 
     let mut lines: Vec<String> = vec![];
     if let Some(p) = &args.replay {
-        lines = common::read_lines(p).into_iter().filter(|l| l.starts_with("accept ") || l.starts_with("lexprobe ")).collect();
+        lines = common::read_lines(p).into_iter().filter(|l| l.starts_with("accept ") || l.starts_with("lexprobe ") || l.starts_with("unitprobe ")).collect();
     } else {
         let all = (1u64 << N_BITS) - 1;
         let mut pats: Vec<(u64, u64)> = vec![(0, 0), (0, 1), (0, 2), (all & !(1 << 3), 2)];
@@ -321,8 +379,8 @@ fn main() {
         pats.truncate(args.n.max(1) as usize);
         for (bits, evm) in pats {
             let mut rec = gen_record(bits, evm, &mut rng);
-            // the environment circumstances do not reach the command line
-            rec.0.retain(|(k, _)| k != "@provided" && k != "@prev");
+            // the environment circumstances do not reach the command line; the daemon's restart is component `upgrade`'s
+            rec.0.retain(|(k, _)| k != "@provided" && k != "@prev" && k != "@later" && k != "@drestart" && !k.starts_with("~."));
             // value class outside what antctl is asked to pin: metrics port 0 (antnode then demands --enable-metrics-server)
             if rec.some("metrics_free_port").is_some() && rng.chance(1, 12) {
                 rec.set("metrics_free_port", "s:0");
@@ -332,9 +390,30 @@ fn main() {
         // values that are not lex-safe, one per record, on a plain record of each EVM network
         for (i, (_, key, val, _)) in LEX_PROBES.iter().enumerate() {
             let mut rec = gen_record(0, i as u64, &mut rng);
-            rec.0.retain(|(k, _)| k != "@provided" && k != "@prev" && k != "@listen" && k != "@nat");
+            rec.0.retain(|(k, _)| !(k.starts_with('@') && k != "@rpc_default_ip") && !k.starts_with("~."));
             rec.set(key, *val);
             lines.push(rec.line("lexprobe"));
+        }
+        // user strings the unquoted unit file does not carry faithfully, one per record
+        for (i, (family, val)) in UNIT_PROBES.iter().enumerate() {
+            let mut rec = gen_record(0, i as u64, &mut rng);
+            rec.0.retain(|(k, _)| !(k.starts_with('@') && k != "@rpc_default_ip") && !k.starts_with("~."));
+            let name = rec.some("service_name").unwrap_or_default();
+            // ordinary directories first (the generator's own classes contain blanks)
+            rec.set_some("service_data_dir_path", &format!("$R/data/{name}"));
+            rec.set_some("service_antnode_path", &format!("$R/data/{name}/antnode"));
+            rec.set_some("service_log_dir_path", &format!("$R/log/{name}"));
+            match *family {
+                "log-dir-blank" => rec.set_some("service_log_dir_path", &format!("$R/{val}/{name}")),
+                "data-dir-blank" => {
+                    rec.set_some("service_data_dir_path", &format!("$R/{val}/{name}"));
+                    rec.set_some("service_antnode_path", &format!("$R/{val}/{name}/antnode"));
+                }
+                "url-blank" => rec.set("options.peers_args.network_contacts_url", format!("l:{}", esc(val))),
+                _ => rec.set_some("options.owner", val),
+            }
+            rec.set("@unitprobe", format!("s:{family}"));
+            lines.push(rec.line("unitprobe"));
         }
     }
 
@@ -366,6 +445,46 @@ fn main() {
         let ua = argv(&b.upgrade);
         let ri = run(&bin, &ia, &root);
         let ru = run(&bin, &ua, &root);
+        let (xi, xri) = unit_run(&bin, &b.install, &root, &scratch, &ri);
+        let (xu, xru) = unit_run(&bin, &b.upgrade, &root, &scratch, &ru);
+        if ws[0] == "unitprobe" {
+            let coarse = |c: &str| match c {
+                "ok" => "ok".to_string(),
+                "exp" | "prog" => c.to_string(),
+                _ => "rej".to_string(),
+            };
+            let details = match &xri {
+                Some(r) if r.ok => format!("owner={} home={}", dump_owner(&r.dump), dump_home(&r.dump)),
+                _ => "owner=- home=-".to_string(),
+            };
+            out.line(line.clone(), format!("XI:{} XU:{} {}", coarse(&xi), coarse(&xu), details));
+            let family = rec.some("@unitprobe").unwrap_or_else(|| "replayed".into());
+            out.nontrivial_case(&format!("unitprobe {family}"));
+            // the direct run (`Command::args`, what the `ServiceInstallCtx` means) is the intended reading
+            let as_intended = match (&xri, ri.ok) {
+                (Some(r), true) => r.ok && r.dump == ri.dump,
+                _ => false,
+            };
+            let verdict = if !ri.ok {
+                "direct-run-rejected"
+            } else if as_intended {
+                "read-as-intended"
+            } else if xi == "ok" {
+                "ACCEPTED-AND-MISREAD"
+            } else if xi == "exp" {
+                "expansion-dependent"
+            } else if xi == "prog" {
+                "other-executable"
+            } else {
+                "rejected"
+            };
+            out.count(&format!("unitprobe:{family}:{verdict}"));
+            if xi != xu {
+                out.oracle_fail("upgrade-unit-read-like-install", &line, &format!("unit verdict {xi} at installation, {xu} after upgrade"));
+            }
+            let _ = &xru;
+            continue;
+        }
         if ws[0] == "lexprobe" {
             let c = |r: &Run| if r.ok { "ok" } else { "rej" };
             let details = if ri.ok {
@@ -406,9 +525,11 @@ fn main() {
             }
             continue;
         }
-        out.line(line.clone(), format!("I:{} U:{}", ri.class, ru.class));
+        out.line(line.clone(), format!("I:{} U:{} XI:{} XU:{}", ri.class, ru.class, xi, xu));
         out.count(&format!("install:{}", ri.class));
         out.count(&format!("upgrade:{}", ru.class));
+        out.count(&format!("unit-install:{xi}"));
+        out.count(&format!("unit-upgrade:{xu}"));
         let pat: String = rec.0.iter().map(|(k, v)| format!("{k}={}", if v.starts_with("s:") { "s" } else if v.starts_with("l:") && v.len() > 2 { "l" } else { v })).collect::<Vec<_>>().join(" ");
         out.nontrivial_case(&pat);
 
@@ -431,6 +552,18 @@ fn main() {
             }
         }
         out.count("typed-values-checked");
+        // the unit file: for definitions whose program path and argument strings are unit-safe, systemd must start the
+        // installed program with arguments antnode reads exactly as it reads the `ServiceInstallCtx` itself
+        for (which, ctx, x, xr, direct) in [("install", &b.install, &xi, &xri, &ri), ("upgrade", &b.upgrade, &xu, &xru, &ru)] {
+            if !unit_safe(ctx) {
+                out.count(&format!("unit:{which}:not-unit-safe(K-t-unit-unquoted, not judged):{x}"));
+                continue;
+            }
+            match xr {
+                Some(r) if r.ok && r.dump == direct.dump && r.conv == direct.conv => out.count(&format!("unit:{which}:read-as-intended")),
+                _ => out.oracle_fail(&format!("{which}-rendered-unit-interpreted-as-intended"), &line, &format!("unit-safe definition, yet systemd's reading of the rendered unit gives `{x}`")),
+            }
+        }
         let listen = rec.some("@listen");
         for frag in intended(&rec, &root, None) {
             if !ri.dump.contains(&frag) {
@@ -464,7 +597,7 @@ fn main() {
             }
             // bootstrap cache file inside the directory asked for
             let cache = run.conv.get("bootstrap_cache_path").cloned();
-            let want_dir = rec.some("options.peers_args.bootstrap_cache_dir").map(|d| d.replace("$R", &root.to_string_lossy()));
+            let want_dir = rec.some("@cli_cache").or_else(|| rec.some("options.peers_args.bootstrap_cache_dir")).map(|d| d.replace("$R", &root.to_string_lossy()));
             let ok = match (&cache, &want_dir) {
                 (None, None) => true,
                 (Some(p), Some(d)) => Path::new(p).parent() == Some(Path::new(d)) && Path::new(p).file_name().map(|f| f.to_string_lossy().starts_with("bootstrap_cache_")).unwrap_or(false),
@@ -480,5 +613,6 @@ fn main() {
         }
     }
     let _ = std::fs::remove_dir_all(&root);
+    let _ = std::fs::remove_dir_all(&scratch);
     out.finish();
 }
